@@ -11,9 +11,12 @@ from pathlib import Path
 VERIF = Path(__file__).resolve().parent.parent
 REPO = Path(os.environ.get("GBVERIF_REPO", "/repo"))
 SPEC = VERIF / "spec"
-WORK = VERIF / "work"
-EVIDENCE = VERIF / "evidence"
-REPLAYS = VERIF / "replays"
+# (GBVERIF_REPO / GBVERIF_OUT are used only by seedtool.py, to run the checks against a patched scratch copy of the
+#  repository without touching /repo or the evidence of the real tree; the registered commands never set them)
+OUT = Path(os.environ.get("GBVERIF_OUT", str(VERIF)))
+WORK = OUT / "work"
+EVIDENCE = OUT / "evidence"
+REPLAYS = OUT / "replays"
 CACHE = VERIF / ".cache"
 GUARD = "GROUPBY_LIB_VERIF"
 
@@ -36,10 +39,10 @@ def setup(threads: int = 2) -> str:
     cache_root = CACHE / "numba"
     cache_dir = cache_root / th
     cache_dir.mkdir(parents=True, exist_ok=True)
-    # prune old cache dirs (keep the 3 most recent)
+    # prune old cache dirs (keep the 6 most recent: concurrent runs on other trees may be using theirs)
     try:
         dirs = sorted((d for d in cache_root.iterdir() if d.is_dir()), key=lambda d: d.stat().st_mtime)
-        for d in dirs[:-3]:
+        for d in dirs[:-6]:
             if d != cache_dir:
                 shutil.rmtree(d, ignore_errors=True)
     except OSError:
